@@ -11,7 +11,8 @@
 (*                    (w = limbs of DW0..DW2 + link control word)          *)
 (*   {e:"up"} {e:"down"} {e:"txph",ph,hot}                                 *)
 (*   {e:"txs",ns} {e:"txe",lo,hi,ctrl,cs,sk}                               *)
-(*   {e:"hps",ns} {e:"hpe",w,ctrl,cs,sk} {e:"dps",ns} {e:"dpe",cs,sk}      *)
+(*   {e:"hps",ns,w,dph} {e:"hpe",w,ctrl,cs,sk} {e:"dps",ns} {e:"dpe",cs,sk} *)
+(*   {e:"dp_offer",n}                                                      *)
 (*   {e:"ts_skp",cs,sk} {e:"tx_other",..} {e:"quiet",qv,qr,ns}             *)
 (* in the order they happened (inputs before outputs within a cycle).      *)
 (* The raw words are decoded here; CRC validity of every header and link   *)
@@ -63,7 +64,8 @@ Abs(x, dt) ==
                            cs |-> x.cs, sk |-> x.sk]
       [] x.e = "hps"   -> [e |-> "hps", dt |-> dt, ns |-> x.ns]
       [] x.e = "hpe"   -> [e |-> "hpe", dt |-> dt, ok |-> (x.ctrl = 0 /\ HpCrcOk(x.w)), s |-> x.w[8] % 8,
-                           dl |-> ((x.w[8] \div 512) % 2 = 1), c |-> HpContent(x.w), cs |-> x.cs, sk |-> x.sk]
+                           dl |-> ((x.w[8] \div 512) % 2 = 1), c |-> HpContent(x.w), cs |-> x.cs, sk |-> x.sk,
+                           dph |-> (x.w[1] % 32 = 8)]
       [] x.e = "dps"   -> [e |-> "dps", dt |-> dt, ns |-> x.ns]
       [] x.e = "dpe"   -> [e |-> "dpe", dt |-> dt, cs |-> x.cs, sk |-> x.sk]
       [] x.e = "ts_skp" -> [e |-> "ts_skp", dt |-> dt, cs |-> x.cs, sk |-> x.sk]
@@ -87,6 +89,9 @@ TNext ==
            dt == IF x.t >= now THEN x.t - now ELSE 0 IN
        IF todo # <<>> THEN Tau /\ UNCHANGED <<l, now, status, rec>>
        ELSE IF x.e = "txs" /\ KaDue(Adv(lk, dt)) /\ r_enabled THEN KaReq(dt) /\ UNCHANGED <<l, now, status, rec>>
+       \* a data packet header (the start record carries the words of the complete packet) with nothing queued before it
+       ELSE IF x.e = "hps" /\ x.dph /\ lk.dpPend /\ lk.up /\ t_rp >= Len(t_unacked) /\ Tx!AcceptJudge = "ok"
+            THEN DpAccept(HpContent(x.w)) /\ UNCHANGED <<l, now, status, rec>>
        ELSE /\ l' = l + 1
             /\ now' = IF x.t >= now THEN x.t ELSE now
             \* (assigned first, so that TLC decodes / judges the record once)
